@@ -659,4 +659,11 @@ func c03(c *ctx) {
 	for k := 0; k < ncr; k++ {
 		c03lateAccept(c, k)
 	}
+	ntcp := 1
+	if c.thorough() {
+		ntcp = 4
+	}
+	for k := 0; k < ntcp; k++ {
+		c03tcpClose(c, k)
+	}
 }
